@@ -173,6 +173,15 @@ func createXmlNamespaces(attrs []xml.Attr) []XmlNamespace {
 
 			ret = append(ret, ns)
 		}
+
+		if i.Name.Space == xmlns {
+			ns = XmlNamespace{
+				prefix: i.Name.Local,
+				value:  i.Value,
+			}
+
+			ret = append(ret, ns)
+		}
 	}
 
 	return ret
